@@ -555,6 +555,9 @@ def requery_cases(draw, tier):
 RULE_ROUND8 = ' One generated forest in 20 (60 in the thorough tier) is a BIG one (gen.big_specs: a child list of 11..300 nodes, that many clones of one data object, more than 256 nodes), with node references aimed at notable positions of the long child lists. A third of the random cases use data objects whose format() text differs from their str() text. Part ascii-stdout: random-options once more in a child interpreter with PYTHONIOENCODING=ascii (format() returns text; it does not depend on what sys.stdout can encode).'
 RULE = RULE + RULE_ROUND8
 
+RULE_ROUND9 = ' repr callables are lambdas, functools.partial objects, bound methods and instances with __call__; two format_iter() runs of one tree with different styles are consumed in lock step; half of the custom 6-segment styles use one str object for two segments.'
+RULE = RULE + RULE_ROUND9
+
 PARTS = [
     Part("exhaustive", run_exhaustive, enum=enum_cases),
     Part("random-options", run_random, strategy=lambda tier: hyp_cases(tier), n={"quick": 2000, "thorough": 200000}),
